@@ -12,10 +12,11 @@ class AsrRegister(Opcode):
         self.n = n
 
     def execute(self, processor):
-        shift_n = substring(processor.registers.get(self.m), 7, 0)
-        result, carry = shift_c(processor.registers.get(self.n), 32, SRType.ASR, shift_n, processor.registers.cpsr.c)
-        processor.registers.set(self.d, result)
-        if self.setflags:
-            processor.registers.cpsr.n = bit_at(result, 31)
-            processor.registers.cpsr.z = 0 if result else 1
-            processor.registers.cpsr.c = carry
+        if processor.condition_passed():
+            shift_n = substring(processor.registers.get(self.m), 7, 0)
+            result, carry = shift_c(processor.registers.get(self.n), 32, SRType.ASR, shift_n, processor.registers.cpsr.c)
+            processor.registers.set(self.d, result)
+            if self.setflags:
+                processor.registers.cpsr.n = bit_at(result, 31)
+                processor.registers.cpsr.z = 0 if result else 1
+                processor.registers.cpsr.c = carry
